@@ -113,6 +113,8 @@ impl Model {
 				Err("key-value operation on a multitree column".into()),
 			(true, Op::DerefTree(..)) if spec.append_only =>
 				Err("dereference of a tree in an append-only column".into()),
+			(true, Op::RefTree(..)) if !spec.append_only && !spec.ref_counted =>
+				Err("reference of a tree in a column without reference counting".into()),
 			(true, _) => Ok(()),
 			(false, Op::InsertTree(..) | Op::RefTree(..) | Op::DerefTree(..)) =>
 				Err("tree operation on a non-multitree column".into()),
